@@ -272,7 +272,7 @@ class Verifier(Interp):
             # must-fail canary: `False` must NOT be provable at a normal exit, i.e. the assumptions collected along the path
             # (preconditions, ghost definitions, library models, assumed invariants and callee postconditions) are consistent
             nx = self.cover.get(("exits", self.variant), 0)
-            if nx < 2:
+            if nx < 4:
                 self.cover[("exits", self.variant)] = nx + 1
                 from .engine import Oblig
 
